@@ -157,6 +157,14 @@ func c05Tokens(rs []rune) {
 			switch r.tok {
 			case WS, INTEGER, DURATIONVAL:
 				vfAssert(r.lit == string(l.ch[start:end]), "C05/literal-is-the-extent")
+			case ILLEGAL:
+				if r.lit != "" {
+					vfAssert(r.lit == string(l.ch[start:end]), "C05/literal-is-the-extent")
+				}
+			case ADD, SUB, MUL, DIV, MOD, BITWISE_AND, BITWISE_OR, BITWISE_XOR, EQ, NEQ, EQREGEX, NEQREGEX, LT, LTE, GT, GTE,
+				LPAREN, RPAREN, COMMA, COLON, DOUBLECOLON, SEMICOLON, DOT:
+				// an operator or punctuation token consumes exactly its spelling (no swallowed look-ahead)
+				vfAssert(end-start == len(tokens[r.tok]), "C05/operator-token-consumes-exactly-its-spelling")
 			case IDENT:
 				quoted := false
 				for _, c := range l.ch[start:end] {
